@@ -3,7 +3,7 @@
    matches fragment by fragment.  Scope: no extra letters (e = []), the internal (perl) rendering. *)
 From Coq Require Import ZArith List Bool Lia.
 From Tdda Require Import Base.Sexp Base.Str Generated.Consts Rexpy.Chars Rexpy.Pipeline Rexpy.OracleCheck Rexpy.Sem
-     Rexpy.Regex Rexpy.PipelineProofs Rexpy.BatchProofs.
+     Rexpy.Regex Rexpy.PipelineProofs Rexpy.RefineProofs Rexpy.BatchProofs.
 Import ListNotations.
 Open Scope Z_scope.
 
@@ -235,9 +235,6 @@ Definition class_info (code : Z) : option (str * cset) :=
   | None => None
   end.
 
-(* the categories that have a regular expression when there are no extra letters *)
-Definition class_codes : list Z := [cA; ca; cL; cUL; cUM; cD; ch; cH; cX; cN; cn; cC; cUC; cWS; cP; cO; cAny].
-
 Definition class_good (code : Z) : Prop :=
   exists t cs, cat_re false [] code = Some t /\ atom_ok cs t /\
                forall ct c, sem_cset ct cs c = cat_sem ct false [] code c.
@@ -373,4 +370,423 @@ Proof.
     + destruct T as [|d T]; [destruct HT|]. apply parse_br_plain; assumption.
     + apply parse_br_dash; assumption.
   - inversion Hms' as [|? ? [_ [_ H45']] _]; subst. cbn [app] in *. apply parse_br_plain; assumption.
+Qed.
+
+Definition suffix_text (b92 b94 esc94 b45 : bool) : str :=
+  (if b92 then [92; 92] else []) ++ (if b94 then (if esc94 then [92; 94] else [94]) else []) ++ (if b45 then [45] else []).
+Definition suffix_chars (b92 b94 b45 : bool) : str :=
+  (if b92 then [92] else []) ++ (if b94 then [94] else []) ++ (if b45 then [45] else []).
+
+Lemma parse_br_suffix b92 b94 esc94 b45 f x :
+  parse_br (S (List.length (suffix_text b92 b94 esc94 b45)) + f) (suffix_text b92 b94 esc94 b45 ++ 93 :: x) false =
+  Some (map BChar (suffix_chars b92 b94 b45), x).
+Proof. destruct b92, b94, esc94, b45; destruct x as [|x0 x]; reflexivity. Qed.
+
+Lemma suffix_head_ok b92 b94 esc94 b45 x :
+  match suffix_text b92 b94 esc94 b45 ++ 93 :: x with d :: _ => Z.eqb d 45 = false | [] => False end \/
+  (suffix_text b92 b94 esc94 b45 ++ 93 :: x = 45 :: 93 :: x /\ map BChar (suffix_chars b92 b94 b45) = [BChar 45]).
+Proof. destruct b92, b94, esc94, b45; cbn; auto. Qed.
+
+Lemma filter_plain chars : Forall plain_member (filter (fun c => negb (memc c bracket_specials)) chars).
+Proof.
+  apply Forall_forall. intros c Hc. apply filter_In in Hc as [_ Hn]. apply negb_true_iff in Hn.
+  unfold plain_member. repeat split; apply (memc_false_neq c bracket_specials); try exact Hn; cbn; tauto.
+Qed.
+
+Definition is_nilb {T} (l : list T) : bool := match l with [] => true | _ => false end.
+
+Lemma escaped_bracket_shape chars :
+  let prefix := if memc 93 chars then [93] else [] in
+  let mains := filter (fun c => negb (memc c bracket_specials)) chars in
+  let esc := is_nilb (prefix ++ mains ++ (if memc 92 chars then [92; 92] else [])) in
+  escaped_bracket false chars = [91] ++ prefix ++ mains ++ suffix_text (memc 92 chars) (memc 94 chars) esc (memc 45 chars) ++ [93].
+Proof.
+  cbv zeta. unfold escaped_bracket, suffix_text. cbn [negb andb app].
+  set (prefix := if memc 93 chars then [93] else []). set (mains := filter _ chars).
+  set (bs := if memc 92 chars then [92; 92] else []).
+  assert (E : (match prefix ++ mains ++ bs with [] => true | _ => false end) = is_nilb (prefix ++ mains ++ bs)) by reflexivity.
+  rewrite E. rewrite <- !app_assoc. reflexivity.
+Qed.
+
+Theorem bracket_atom chars : chars <> [] ->
+  atom_ok (CBr false (map BChar (bracket_order chars))) (escaped_bracket false chars).
+Proof.
+  intro Hne. rewrite escaped_bracket_shape. cbv zeta.
+  set (b93 := memc 93 chars). set (b92 := memc 92 chars). set (b94 := memc 94 chars). set (b45 := memc 45 chars).
+  set (mains := filter (fun c => negb (memc c bracket_specials)) chars).
+  set (esc := is_nilb ((if b93 then [93] else []) ++ mains ++ (if b92 then [92; 92] else []))).
+  split; [|reflexivity]. intro x.
+  assert (Hord : bracket_order chars = (if b93 then [93] else []) ++ mains ++ suffix_chars b92 b94 b45) by reflexivity.
+  rewrite Hord, !map_app.
+  set (T := suffix_text b92 b94 esc b45 ++ 93 :: x).
+  assert (HT : forall f, parse_br (S (List.length (suffix_text b92 b94 esc b45)) + f) T false = Some (map BChar (suffix_chars b92 b94 b45), x))
+    by (intro f; apply parse_br_suffix).
+  pose proof (suffix_head_ok b92 b94 esc b45 x) as Hhead. fold T in Hhead.
+  pose proof (filter_plain chars) as Hplain. fold mains in Hplain.
+  (* the text after '[' *)
+  assert (Hbody : forall f, parse_br (List.length mains + (S (List.length (suffix_text b92 b94 esc b45)) + f)) (mains ++ T) false =
+                            Some (map BChar mains ++ map BChar (suffix_chars b92 b94 b45), x)).
+  { intro f. apply parse_br_mains; [exact Hplain|exact Hhead|apply HT]. }
+  replace (([91] ++ (if b93 then [93] else []) ++ mains ++ suffix_text b92 b94 esc b45 ++ [93]) ++ x)
+    with (91 :: (if b93 then [93] else []) ++ mains ++ T)
+    by (unfold T; cbn [app]; rewrite <- !app_assoc; reflexivity).
+  cbn [parse_atom]. change (Z.eqb 91 92) with false. change (Z.eqb 91 91) with true. cbv iota.
+  destruct b93 eqn:E93.
+  - (* ']' comes first *)
+    cbn [app]. change (Z.eqb 93 94) with false. cbv iota. cbn [List.length parse_br]. change (Z.eqb 93 93) with true. cbv iota.
+    replace (List.length (mains ++ T)) with (List.length mains + (S (List.length (suffix_text b92 b94 esc b45)) + List.length x))%nat
+      by (unfold T; rewrite !app_length; cbn [List.length]; lia).
+    rewrite Hbody. reflexivity.
+  - cbn [app]. destruct mains as [|m0 ms] eqn:Em.
+    + (* no plain member: the suffix starts the set *)
+      cbn [app map] in *.
+      assert (Hnz : b92 = true \/ b94 = true \/ b45 = true).
+      { destruct chars as [|c0 chars0]; [congruence|].
+        assert (Hin : In c0 (c0 :: chars0)) by (left; reflexivity).
+        destruct (memc c0 bracket_specials) eqn:Es.
+        - apply memc_In in Es. cbn in Es. pose proof (proj2 (memc_In c0 (c0 :: chars0)) Hin) as Hm.
+          destruct Es as [<-|[<-|[<-|[<-|[]]]]].
+          + unfold b93 in E93. congruence.
+          + left. exact Hm.
+          + right. right. exact Hm.
+          + right. left. exact Hm.
+        - exfalso. assert (In c0 (filter (fun c => negb (memc c bracket_specials)) (c0 :: chars0))).
+          { apply filter_In. split; [exact Hin|rewrite Es; reflexivity]. }
+          fold mains in H. rewrite Em in H. destruct H. }
+      assert (Hesc : esc = negb b92) by (unfold esc; destruct b92; reflexivity).
+      unfold T in *. rewrite Hesc in *.
+      destruct b92, b94, b45; cbn in Hnz; try (exfalso; intuition discriminate); destruct x; reflexivity.
+    + (* a plain member first: '^' cannot be it *)
+      inversion Hplain as [|? ? [H93 [H92 H45]] Hms]; subst.
+      assert (H94 : Z.eqb m0 94 = false).
+      { assert (Hin : In m0 (filter (fun c => negb (memc c bracket_specials)) chars)) by (fold mains; rewrite Em; left; reflexivity).
+        apply filter_In in Hin as [_ Hn]. apply negb_true_iff in Hn. apply (memc_false_neq m0 bracket_specials); [exact Hn|cbn; tauto]. }
+      cbn [app]. rewrite H94.
+      replace (List.length (m0 :: ms ++ T)) with (List.length (m0 :: ms) + (S (List.length (suffix_text b92 b94 esc b45)) + List.length x))%nat
+        by (unfold T; cbn [List.length]; rewrite !app_length; cbn [List.length]; lia).
+      cbn [List.length Nat.add]. rewrite parse_br_first by exact H93.
+      specialize (Hbody (List.length x)). cbn [List.length Nat.add app] in Hbody. rewrite Hbody. reflexivity.
+Qed.
+
+(* ------------------------------------------------------------------ F. fragments and whole expressions *)
+Lemma parse_seq_mono f : forall top s r, parse_seq f top s = Some r -> forall k, parse_seq (f + k) top s = Some r.
+Proof.
+  induction f as [|f IH]; intros top s r H k; [discriminate|]. cbn [Nat.add parse_seq] in *.
+  destruct s as [|c s]; [discriminate|].
+  destruct (Z.eqb c 36); [exact H|]. destruct (Z.eqb c 41); [exact H|].
+  destruct (Z.eqb c 40).
+  - destruct top; [|discriminate].
+    destruct (parse_seq f false s) as [[inner r1]|] eqn:E1; [|discriminate]. rewrite (IH _ _ _ E1 k).
+    destruct (starts_quant r1); [discriminate|].
+    destruct (parse_seq f true r1) as [[rest r2]|] eqn:E2; [|discriminate]. rewrite (IH _ _ _ E2 k). exact H.
+  - destruct (parse_atom (c :: s)) as [[cs r1]|]; [|discriminate].
+    destruct (parse_quant r1) as [[[m M] r2]|]; [|discriminate].
+    destruct (parse_seq f top r2) as [[rest r3]|] eqn:E; [|discriminate]. rewrite (IH _ _ _ E k). exact H.
+Qed.
+
+Lemma parse_seq_ge f f' top s r : parse_seq f top s = Some r -> (f <= f')%nat -> parse_seq f' top s = Some r.
+Proof. intros H Hle. replace f' with (f + (f' - f))%nat by lia. apply parse_seq_mono. exact H. Qed.
+
+(* how the text of one fragment parses, and what its items accept *)
+Definition part_good (top : bool) (f : frag) (part : str) (its : list item) (k : nat) : Prop :=
+  (forall fuel rest irest rend, starts_quant rest = false -> parse_seq fuel top rest = Some (irest, rend) ->
+     parse_seq (k + fuel) top (part ++ rest) = Some (its ++ irest, rend)) /\
+  (k <= List.length part)%nat /\
+  (forall rest, starts_quant rest = false -> starts_quant (part ++ rest) = false) /\
+  (forall ct s, frag_matches ct false [] f s -> lang ct its s).
+
+Lemma quant_okb_ok m M : quant_okb m M = true -> quant_ok m M.
+Proof.
+  unfold quant_okb, quant_ok. intro H. apply andb_true_iff in H as [H1 H2]. apply Z.leb_le in H1. split; [exact H1|].
+  destruct M as [M'|]; [apply Z.leb_le; exact H2|exact I].
+Qed.
+
+(* a single quantified atom *)
+Lemma single_part top f cs regex (p : Z -> bool) :
+  atom_ok cs regex -> quant_ok (f_min f) (f_max f) ->
+  (forall ct s, frag_matches ct false [] f s -> forallb (sem_cset ct cs) s = true /\ count_ok (f_min f) (f_max f) (List.length s)) ->
+  part_good top f (quantify regex (f_min f) (f_max f)) (quant_items cs regex (f_min f) (f_max f))
+            (List.length (quant_items cs regex (f_min f) (f_max f))).
+Proof.
+  intros Hok Hq Hsem. split; [|split; [|split]].
+  - intros fuel rest irest rend Hsq Hr. apply quantified_parses; assumption.
+  - destruct Hok as [_ Hh]. assert (Hl : (1 <= List.length regex)%nat) by (destruct regex; [destruct Hh|cbn; lia]).
+    unfold quantify, quant_items. destruct (f_max f) as [M'|].
+    + destruct (Z.eqb (f_min f) M'); cbn [andb].
+      * destruct (Z.eqb (f_min f) 1); cbn [negb andb List.length]; [lia|].
+        destruct (Z.eqb (f_min f) 2 && Nat.eqb (List.length regex) 1) eqn:E2; cbn [List.length]; rewrite ?app_length; [|lia].
+        lia.
+      * cbn [List.length]. destruct (Z.eqb (f_min f) 0 && Z.eqb M' 1); rewrite app_length; lia.
+    + cbn [List.length]. destruct (Z.eqb (f_min f) 0); rewrite app_length; lia.
+  - intros rest Hsq. destruct Hok as [_ Hh]. unfold quantify.
+    destruct (f_max f) as [M'|]; repeat match goal with |- context [if ?b then _ else _] => destruct b end;
+      rewrite <- ?app_assoc; apply head_ok_not_quant; exact Hh.
+  - intros ct s Hm. destruct (Hsem ct s Hm) as [H1 H2]. apply quant_items_lang; assumption.
+Qed.
+
+(* a literal string of several (or no) characters *)
+Lemma literal_part top full s : forall fuel rest irest rend, starts_quant rest = false ->
+  parse_seq fuel top rest = Some (irest, rend) ->
+  parse_seq (List.length s + fuel) top (escape full s ++ rest) =
+  Some (map (fun c => {| i_set := CLit c; i_min := 1; i_max := Some 1 |}) s ++ irest, rend) /\
+  starts_quant (escape full s ++ rest) = false.
+Proof.
+  induction s as [|c s IH]; intros fuel rest irest rend Hsq Hr; [split; [exact Hr|exact Hsq]|].
+  destruct (IH fuel rest irest rend Hsq Hr) as [IH1 IH2].
+  unfold escape in *. cbn [flat_map List.length Nat.add map app]. rewrite <- app_assoc.
+  pose proof (escape_char_atom full c) as Hok. split.
+  - eapply parse_seq_step; [exact Hok| |exact IH1].
+    unfold parse_quant. destruct (flat_map (escape_char full) s ++ rest) as [|d r] eqn:E; [reflexivity|].
+    cbn [starts_quant] in IH2. repeat (apply orb_false_iff in IH2 as [IH2 ?]).
+    rewrite IH2. replace (Z.eqb d 43) with false by (symmetry; assumption).
+    replace (Z.eqb d 63) with false by (symmetry; assumption). replace (Z.eqb d 123) with false by (symmetry; assumption).
+    reflexivity.
+  - apply head_ok_not_quant. apply Hok.
+Qed.
+
+Lemma lang_literal ct s : lang ct (map (fun c => {| i_set := CLit c; i_min := 1; i_max := Some 1 |}) s) s.
+Proof.
+  induction s as [|c s IH]; [constructor|]. cbn [map]. change (c :: s) with ([c] ++ s).
+  constructor; [cbn; rewrite Z.eqb_refl; reflexivity|cbn; lia|exact IH].
+Qed.
+
+Lemma forallb_ext_local {T} (p q : T -> bool) l : (forall x, p x = q x) -> forallb p l = forallb q l.
+Proof. intro H. induction l as [|x l IH]; cbn [forallb]; [reflexivity|]. rewrite H, IH. reflexivity. Qed.
+
+Lemma escape_length full l : (List.length l <= List.length (escape full l))%nat.
+Proof.
+  unfold escape. induction l as [|x l IHl]; cbn [flat_map List.length]; [lia|].
+  rewrite app_length. assert (H1 : (1 <= List.length (escape_char full x))%nat).
+  { unfold escape_char, re_escape_char. repeat match goal with |- context [if ?b then _ else _] => destruct b end; cbn; lia. }
+  change (S (List.length l)) with (1 + List.length l)%nat. apply Nat.add_le_mono; assumption.
+Qed.
+
+Theorem fragment_part top full f part :
+  frag_renderable f = true -> fragment2re false full [] false f = Ok part -> exists its k, part_good top f part its k.
+Proof.
+  unfold frag_renderable, fragment2re. destruct f as [a m M]. cbn [f_atom f_min f_max andb negb]. intros Hr Hp.
+  destruct a as [s|c|code|cs]; cbn [atom_text bind] in Hp.
+  - destruct s as [|c [|c2 s2]].
+    + (* the empty literal *)
+      apply andb_true_iff in Hr as [H1 H2]. apply Z.eqb_eq in H1. unfold opt_Z_eqb in H2. destruct M as [M'|]; [|discriminate].
+      apply Z.eqb_eq in H2. subst m M'. injection Hp as <-. exists [], O. split; [|split; [|split]].
+      * intros fuel rest irest rend _ H. exact H.
+      * cbn. lia.
+      * intros rest H. exact H.
+      * intros ct s Hm. unfold frag_matches in Hm. cbn [f_atom atom_pred] in Hm. destruct Hm as [-> _]. constructor.
+    + (* one character *)
+      injection Hp as <-. unfold escape. cbn [flat_map]. rewrite app_nil_r.
+      exists (quant_items (CLit c) (escape_char full c) m M), (List.length (quant_items (CLit c) (escape_char full c) m M)).
+      apply (single_part top {| f_atom := ALit [c]; f_min := m; f_max := M |} (CLit c) (escape_char full c) (Z.eqb c));
+        [apply escape_char_atom|apply quant_okb_ok; exact Hr|].
+      intros ct s Hm. unfold frag_matches in Hm. cbn [f_atom atom_pred f_min f_max] in Hm. exact Hm.
+    + (* a longer literal *)
+      apply andb_true_iff in Hr as [H1 H2]. apply Z.eqb_eq in H1. unfold opt_Z_eqb in H2. destruct M as [M'|]; [|discriminate].
+      apply Z.eqb_eq in H2. subst m M'. injection Hp as <-.
+      change (quantify (escape full (c :: c2 :: s2)) 1 (Some 1)) with (escape full (c :: c2 :: s2)).
+      exists (map (fun x => {| i_set := CLit x; i_min := 1; i_max := Some 1 |}) (c :: c2 :: s2)), (List.length (c :: c2 :: s2)).
+      split; [|split; [|split]].
+      * intros fuel rest irest rend Hsq H. apply (literal_part top full (c :: c2 :: s2)); assumption.
+      * exact (escape_length full (c :: c2 :: s2)).
+      * intros rest Hsq. assert (Hok := escape_char_atom full c). unfold escape. cbn [flat_map]. rewrite <- app_assoc.
+        apply head_ok_not_quant. apply Hok.
+      * intros ct s Hm. unfold frag_matches in Hm. cbn [f_atom atom_pred] in Hm. destruct Hm as [-> _]. apply lang_literal.
+  - (* a raw character *)
+    apply andb_true_iff in Hr as [Hc Hq]. injection Hp as <-.
+    destruct (Z.eqb_spec c 46) as [->|Hne].
+    + exists (quant_items CAny [46] m M), (List.length (quant_items CAny [46] m M)).
+      apply (single_part top {| f_atom := ARaw 46; f_min := m; f_max := M |} CAny [46] (fun _ => true));
+        [apply dot_atom|apply quant_okb_ok; exact Hq|].
+      intros ct s Hm. unfold frag_matches in Hm. cbn [f_atom atom_pred f_min f_max] in Hm. destruct Hm as [H1 H2].
+      split; [|exact H2]. cbn [sem_cset]. clear. induction s; [reflexivity|exact IHs].
+    + cbn [orb] in Hc. apply negb_true_iff in Hc. exists (quant_items (CLit c) [c] m M), (List.length (quant_items (CLit c) [c] m M)).
+      apply (single_part top {| f_atom := ARaw c; f_min := m; f_max := M |} (CLit c) [c] (Z.eqb c));
+        [apply not_meta_plain; exact Hc|apply quant_okb_ok; exact Hq|].
+      intros ct s Hm. unfold frag_matches in Hm. cbn [f_atom atom_pred f_min f_max] in Hm. destruct Hm as [H1 H2].
+      split; [|exact H2]. rewrite <- H1. apply forallb_ext_local. intro x. cbn [sem_cset]. unfold raw_sem.
+      replace (Z.eqb c 46) with false by (symmetry; apply Z.eqb_neq; exact Hne). cbn [orb]. apply Z.eqb_sym.
+  - (* a category *)
+    apply andb_true_iff in Hr as [Hc Hq]. apply memc_In in Hc.
+    pose proof (proj1 (Forall_forall _ _) class_codes_good code Hc) as (t & cs & Ht & Hok & Hsem).
+    rewrite Ht in Hp. injection Hp as <-. exists (quant_items cs t m M), (List.length (quant_items cs t m M)).
+    apply (single_part top {| f_atom := AClass code; f_min := m; f_max := M |} cs t (fun _ => true));
+      [exact Hok|apply quant_okb_ok; exact Hq|].
+    intros ct s Hm. unfold frag_matches in Hm. cbn [f_atom atom_pred f_min f_max] in Hm. destruct Hm as [H1 H2].
+    split; [|exact H2]. rewrite <- H1. apply forallb_ext_local. intro x. apply Hsem.
+  - (* a bracket over a set of characters *)
+    apply andb_true_iff in Hr as [Hc Hq]. injection Hp as <-.
+    assert (Hne : cs <> []) by (destruct cs; [discriminate|discriminate]).
+    exists (quant_items (CBr false (map BChar (bracket_order cs))) (escaped_bracket false cs) m M),
+           (List.length (quant_items (CBr false (map BChar (bracket_order cs))) (escaped_bracket false cs) m M)).
+    apply (single_part top {| f_atom := ABracket cs; f_min := m; f_max := M |} _ _ (fun _ => true));
+      [apply bracket_atom; exact Hne|apply quant_okb_ok; exact Hq|].
+    intros ct s Hm. unfold frag_matches in Hm. cbn [f_atom atom_pred f_min f_max] in Hm. destruct Hm as [H1 H2].
+    split; [|exact H2]. rewrite <- H1. apply forallb_ext_local. intro x. cbn [sem_cset xorb].
+    rewrite br_chars_sem, (memc_ext _ _ x (bracket_order_In cs)). destruct (memc x cs); reflexivity.
+Qed.
+
+Lemma parse_seq_group f body inner r1 rest r2 :
+  parse_seq f false body = Some (inner, r1) -> starts_quant r1 = false -> parse_seq f true r1 = Some (rest, r2) ->
+  parse_seq (S f) true (40 :: body) = Some (inner ++ rest, r2).
+Proof.
+  intros H1 Hq H2. cbn [parse_seq]. change (Z.eqb 40 36) with false. change (Z.eqb 40 41) with false.
+  change (Z.eqb 40 40) with true. cbv iota. rewrite H1, Hq, H2. reflexivity.
+Qed.
+
+(* with capture groups: a category fragment is wrapped in ( ) *)
+Theorem tagged_fragment_part full tagged f part :
+  frag_renderable f = true -> fragment2re false full [] tagged f = Ok part -> exists its k, part_good true f part its k.
+Proof.
+  intros Hr Hp. destruct (tagged && negb (f_fixed f)) eqn:Et.
+  - (* wrapped *)
+    apply andb_true_iff in Et as [-> Hnf]. apply negb_true_iff in Hnf.
+    unfold fragment2re in Hp. destruct (atom_text false full [] (f_atom f)) as [regex|err] eqn:Ea; cbn [bind] in Hp; [|discriminate].
+    rewrite Hnf in Hp. cbn [negb andb] in Hp. injection Hp as <-.
+    assert (Hun : fragment2re false full [] false f = Ok (quantify regex (f_min f) (f_max f))).
+    { unfold fragment2re. rewrite Ea. cbn [bind andb]. reflexivity. }
+    destruct (fragment_part false full f _ Hr Hun) as (its & k & Hparse & Hk & Hhead & Hsem).
+    (* the text does not begin with '(' : its head is that of a category's expression *)
+    assert (Hsw : startswith [40] (quantify regex (f_min f) (f_max f)) = false).
+    { unfold f_fixed in Hnf. destruct f as [a m M]. cbn [f_atom f_min f_max] in *. destruct a as [s|c|code|cs]; try discriminate.
+      unfold frag_renderable in Hr. cbn [f_atom] in Hr. apply andb_true_iff in Hr as [Hc _]. apply memc_In in Hc.
+      pose proof (proj1 (Forall_forall _ _) class_codes_good code Hc) as (t & cs & Ht & [_ Hh] & _).
+      cbn [atom_text] in Ea. rewrite Ht in Ea. injection Ea as <-.
+      destruct t as [|c0 t]; [destruct Hh|]. cbn [head_ok] in Hh. repeat (apply orb_false_iff in Hh as [Hh ?]).
+      unfold quantify. destruct M as [M'|]; repeat match goal with |- context [if ?b then _ else _] => destruct b end;
+        cbn [app startswith]; rewrite (Z.eqb_sym 40 c0); replace (Z.eqb c0 40) with false by (symmetry; assumption); reflexivity. }
+    unfold capture_group. rewrite Hsw. cbn [andb].
+    exists its, (S (S k)). split; [|split; [|split]].
+    + intros fuel rest irest rend Hsq Hrest. cbn [app]. rewrite <- app_assoc. cbn [app].
+      replace (S (S k) + fuel)%nat with (S (k + (1 + fuel)))%nat by lia.
+      assert (Hin : parse_seq (k + (1 + fuel)) false (quantify regex (f_min f) (f_max f) ++ 41 :: rest) = Some (its ++ [], rest)).
+      { apply Hparse; [reflexivity|]. cbn [Nat.add parse_seq]. reflexivity. }
+      rewrite app_nil_r in Hin.
+      apply (parse_seq_group _ _ its rest irest rend Hin Hsq). apply (parse_seq_ge fuel); [exact Hrest|lia].
+    + rewrite !app_length. cbn [List.length]. lia.
+    + intros rest _. reflexivity.
+    + exact Hsem.
+  - (* not wrapped *)
+    assert (Hun : fragment2re false full [] false f = Ok part).
+    { unfold fragment2re in *. destruct (atom_text false full [] (f_atom f)) as [regex|err]; cbn [bind] in *; [|discriminate].
+      rewrite Et in Hp. exact Hp. }
+    exact (fragment_part true full f part Hr Hun).
+Qed.
+
+(* all the fragments of a pattern *)
+Lemma fragments_parts full tagged : forall frags parts,
+  forallb frag_renderable frags = true -> mapM (fragment2re false full [] tagged) frags = Ok parts ->
+  exists its K,
+    (forall fuel rest irest rend, starts_quant rest = false -> parse_seq fuel true rest = Some (irest, rend) ->
+       parse_seq (K + fuel) true (List.concat parts ++ rest) = Some (its ++ irest, rend)) /\
+    (K <= List.length (List.concat parts))%nat /\
+    (forall rest, starts_quant rest = false -> starts_quant (List.concat parts ++ rest) = false) /\
+    (forall ct s, matches_frags ct false [] frags s -> lang ct its s).
+Proof.
+  induction frags as [|f frags IH]; intros parts Hr Hm; cbn [mapM forallb] in *.
+  - injection Hm as <-. exists [], O. cbn [List.concat app Nat.add List.length]. repeat split; try (intros; assumption); try lia.
+    intros ct s H. inversion H; subst. constructor.
+  - apply andb_true_iff in Hr as [Hr1 Hr2].
+    destruct (fragment2re false full [] tagged f) as [p|err] eqn:Ep; cbn [bind] in Hm; [|discriminate].
+    destruct (mapM (fragment2re false full [] tagged) frags) as [ps|err] eqn:Eps; cbn [bind] in Hm; [|discriminate].
+    injection Hm as <-. destruct (IH ps Hr2 eq_refl) as (its2 & K2 & Hp2 & Hk2 & Hh2 & Hs2).
+    destruct (tagged_fragment_part full tagged f p Hr1 Ep) as (its1 & k1 & Hp1 & Hk1 & Hh1 & Hs1).
+    exists (its1 ++ its2), (k1 + K2)%nat. cbn [List.concat]. split; [|split; [|split]].
+    + intros fuel rest irest rend Hsq Hrest. rewrite <- !app_assoc, <- Nat.add_assoc.
+      apply Hp1; [apply Hh2; exact Hsq|]. apply Hp2; assumption.
+    + rewrite app_length. lia.
+    + intros rest Hsq. rewrite <- app_assoc. apply Hh1, Hh2. exact Hsq.
+    + intros ct s H. inversion H as [|? ? s1 s2 Hf Hrest']; subst. apply lang_app; [apply Hs1; exact Hf|apply Hs2; exact Hrest'].
+Qed.
+
+Definition ws_item : item := {| i_set := CSpace; i_min := 0; i_max := None |}.
+
+Lemma ws_parses fuel rest irest rend : starts_quant rest = false -> parse_seq fuel true rest = Some (irest, rend) ->
+  parse_seq (S fuel) true ([92; 115; 42] ++ rest) = Some (ws_item :: irest, rend).
+Proof.
+  intros Hsq H. change ([92; 115; 42] ++ rest) with ([92; 115] ++ (42 :: rest)).
+  eapply parse_seq_step; [split; [intro x; reflexivity|reflexivity]| |exact H].
+  unfold parse_quant. change (Z.eqb 42 42) with true. cbv iota. rewrite Hsq. reflexivity.
+Qed.
+
+(* THE TEXT THEOREM: the expression rendered for a pattern is inside the modelled fragment of the syntax, and the
+   model's reading of it accepts every string that the pattern matches fragment by fragment *)
+Theorem rendered_text_matches ct full stripped tagged frags text s :
+  forallb frag_renderable frags = true ->
+  vrle2re false full [] stripped tagged frags = Ok text ->
+  matches_frags ct false [] frags s ->
+  re_model_match ct text s = Some true.
+Proof.
+  intros Hr Hv Hm. unfold vrle2re in Hv.
+  destruct (mapM (fragment2re false full [] tagged) frags) as [parts|err] eqn:Ep; cbn [bind] in Hv; [|discriminate].
+  injection Hv as <-. destruct (fragments_parts full tagged frags parts Hr Ep) as (its & K & Hparse & HK & Hhead & Hsem).
+  specialize (Hsem ct s Hm).
+  assert (Hend : forall f, parse_seq (S f) true [36] = Some ([], [])) by reflexivity.
+  unfold re_model_match, parse_regex. cbn [app]. change (Z.eqb 94 94) with true. cbv iota.
+  destruct stripped.
+  - (* ^\s* ... \s*$ *)
+    change (s2l "\s*") with [92; 115; 42].
+    assert (Hall : parse_seq (S (K + S (S O))) true ([92; 115; 42] ++ List.concat parts ++ [92; 115; 42] ++ [36]) =
+                   Some (ws_item :: its ++ [ws_item], [])).
+    { apply ws_parses; [apply Hhead; reflexivity|].
+      apply (Hparse (S (S O)) ([92; 115; 42] ++ [36]) [ws_item] []); [reflexivity|]. apply ws_parses; [reflexivity|apply Hend]. }
+    rewrite (parse_seq_ge _ (S (List.length ([92; 115; 42] ++ List.concat parts ++ [92; 115; 42] ++ [36]))) true _ _ Hall)
+      by (rewrite !app_length; cbn [List.length]; lia).
+    assert (Hl : lang ct (ws_item :: its ++ [ws_item]) s).
+    { change s with ([] ++ s). constructor; [reflexivity|left; reflexivity|].
+      rewrite <- (app_nil_r s). apply lang_app; [exact Hsem|].
+      change (@nil Z) with (@nil Z ++ []). constructor; [reflexivity|left; reflexivity|constructor]. }
+    rewrite (match_items_complete ct _ s Hl). reflexivity.
+  - cbn [app].
+    assert (Hall : parse_seq (K + S O) true (List.concat parts ++ [36]) = Some (its ++ [], [])).
+    { apply Hparse; [reflexivity|apply Hend]. }
+    rewrite (parse_seq_ge _ (S (List.length (List.concat parts ++ [36]))) true _ _ Hall)
+      by (rewrite app_length; cbn [List.length]; lia).
+    rewrite app_nil_r, (match_items_complete ct _ s Hsem). reflexivity.
+Qed.
+
+(* ------------------------------------------------------------------ G. one batch extraction, at the level of the text *)
+Lemma mapM_nth_pair {A B} (f : A -> res B) l ys x : mapM f l = Ok ys -> In x l -> exists y, In y ys /\ f x = Ok y.
+Proof.
+  intro H. apply mapM_Forall2 in H. induction H as [|a b l ys Hab _ IH]; intro Hin; [destruct Hin|].
+  destruct Hin as [<-|Hin]; [exists b; split; [left; reflexivity|exact Hab]|].
+  destruct (IH Hin) as [y [Hy Hf]]. exists y. split; [right; exact Hy|exact Hf].
+Qed.
+
+Lemma batch_rex_of ct o e stripped gt ex merged rex :
+  batch_extract ct o e stripped gt ex = Ok (merged, rex) ->
+  mapM (vrle2re false (o_full_escape o) e stripped (o_tag o)) merged = Ok rex.
+Proof.
+  unfold batch_extract. destruct (mapM _ (to_vrles _)) as [refined|err]; cbn [bind]; [|discriminate].
+  destruct (mapM (vrle2re false (o_full_escape o) e stripped (o_tag o)) _) as [rx|err] eqn:E; cbn [bind]; [|discriminate].
+  intro H. injection H as <- <-. exact E.
+Qed.
+
+(* every working example is matched - in the model's reading of the expression TEXT - by one of the expressions *)
+Theorem batch_text_covers ct o stripped gt ex merged rex :
+  batch_extract ct o [] stripped gt ex = Ok (merged, rex) ->
+  table_ok ct -> 1 <= z_max_strings_in_group o ->
+  batch_oracle_okb ct o [] stripped gt ex = true ->
+  batch_renderable ct o stripped gt ex = true ->
+  forall s, In s (ex_strings ex) -> exists text, In text rex /\ re_model_match ct text s = Some true.
+Proof.
+  intros Hb Htab Hcap Horc Hren s Hs.
+  destruct (batch_covers_checked ct o [] stripped gt ex merged rex Hb Htab Hcap Horc s Hs) as [fs [Hin Hm]].
+  unfold batch_renderable in Hren. rewrite Hb in Hren. rewrite forallb_forall in Hren.
+  destruct (mapM_nth_pair _ _ _ fs (batch_rex_of _ _ _ _ _ _ _ _ Hb) Hin) as [text [Ht Hv]].
+  exists text. split; [exact Ht|]. eapply rendered_text_matches; [apply Hren; exact Hin|exact Hv|exact Hm].
+Qed.
+
+(* ... and every expression matches one of the working examples (C13) *)
+Theorem batch_text_each_matches ct o stripped gt ex merged rex :
+  batch_extract ct o [] stripped gt ex = Ok (merged, rex) ->
+  table_ok ct -> 1 <= z_max_strings_in_group o ->
+  batch_oracle_okb ct o [] stripped gt ex = true ->
+  batch_renderable ct o stripped gt ex = true ->
+  forall text, In text rex -> exists s, In s (ex_strings ex) /\ re_model_match ct text s = Some true.
+Proof.
+  intros Hb Htab Hcap Horc Hren text Ht.
+  destruct (mapM_In _ _ _ _ (batch_rex_of _ _ _ _ _ _ _ _ Hb) Ht) as [fs [Hin Hv]].
+  destruct (batch_each_matches_some ct o [] stripped gt ex merged rex Hb Htab Hcap Horc fs Hin) as [s [Hs Hm]].
+  unfold batch_renderable in Hren. rewrite Hb in Hren. rewrite forallb_forall in Hren.
+  exists s. split; [exact Hs|]. eapply rendered_text_matches; [apply Hren; exact Hin|exact Hv|exact Hm].
 Qed.
